@@ -396,6 +396,31 @@ func ext4MatrixScens(quick bool) []*fatScen {
 			}
 		}
 	}
+	// group-count sweep: volumes whose number of block groups is exactly, one below and one above a whole number of
+	// group-descriptor blocks (16 descriptors of 64 bytes or 32 of 32 bytes per 1 KiB block), Create plus one operation
+	for _, groups := range []int64{15, 16, 17, 27, 31, 32, 33, 64} {
+		extras := []int64{0, 1 << 10}
+		if groups == 16 || groups == 27 {
+			// ... and a last group of 1..14 blocks: too short for its own bitmaps and inode table (group 27 also carries a
+			// backup of the superblock and the descriptors); Create must refuse the size or produce a clean image
+			extras = []int64{0, 1 << 10, 2 << 10, 3 << 10, 9 << 10, 10 << 10, 11 << 10, 12 << 10, 13 << 10, 14 << 10}
+			if !quick {
+				extras = nil
+				for k := int64(0); k <= 16; k++ {
+					extras = append(extras, k<<10)
+				}
+			}
+		}
+		for _, extra := range extras {
+			for _, f := range []string{"bpg=256", "bpg=256,^64bit"} {
+				if quick && (groups == 15 || groups == 31 || groups == 64) && extra != 0 {
+					continue
+				}
+				c := fatCfg{Type: 4, Size: groups*256<<10 + extra, Start: 4096, E4SectorsPerBlock: 2, E4Feat: f}
+				out = append(out, &fatScen{Name: "groups[" + f + "]", Cfg: c, Letters: letters, Depth: 1, Oracle: "e2fsck"})
+			}
+		}
+	}
 	return out
 }
 
